@@ -72,13 +72,17 @@ Inductive owner := OHttp | OJob (n : N).
     sync ids captured by the lease-timer goroutines that were started and not
     cancelled, oldest first (all leases have the same duration, so they fire in
     this order); when [lease] holds, the lease's own timer is the last one.
+    The boolean of a timer is never read by a step: it marks timers that were
+    already running at the last "time passes, less than a lease" point of a
+    correspondence history ([age]), so that "the timers older than that fire, the
+    younger ones do not" can be said as a number of [EExpire] events.
     [own]: who started the active sync - only read by the [Fixed] variant. *)
 Record state := mkState {
   dat : data;
   started : bool;
   sid : N;
   lease : bool;
-  timers : list N;
+  timers : list (N * bool);
   seen : list N;
   own : option owner
 }.
@@ -89,7 +93,7 @@ Definition with_dat (s : state) (d : data) : state :=
   mkState d (started s) (sid s) (lease s) (timers s) (seen s) (own s).
 
 (** ds.fullSyncLease.cancel() when a lease is present: its goroutine ends without effect *)
-Definition cancelled_timers (s : state) : list N :=
+Definition cancelled_timers (s : state) : list (N * bool) :=
   if lease s then removelast (timers s) else timers s.
 
 (** Dataset.StartFullSync *)
@@ -108,7 +112,7 @@ Definition refresh (v : variant) (id : N) (s : state) : option state :=
     if N.eqb id (sid s) then
       match v, is_job (own s) with
       | Fixed, true => Some s
-      | _, _ => Some (mkState (dat s) (started s) (sid s) true (cancelled_timers s ++ [sid s]) (seen s) (own s))
+      | _, _ => Some (mkState (dat s) (started s) (sid s) true (cancelled_timers s ++ [(sid s, false)]) (seen s) (own s))
       end
     else None
   else if N.eqb id 0 then Some s else None.
@@ -138,6 +142,7 @@ Inductive event :=
 | EJobStart (n : N)                                               (* datasetSink.startFullSync of job run n *)
 | EJobBatch (n : N) (ents : list ent)                             (* datasetSink.processEntities *)
 | EJobEnd (n : N)                                                 (* datasetSink.endFullSync *)
+| ETxn (ents : list ent)                                          (* Store.ExecuteTransaction (POST /transactions) on this dataset *)
 | EExpire.                                                        (* the oldest outstanding lease timer fires *)
 
 (** datasetHandler.processEntities *)
@@ -168,10 +173,14 @@ Definition job_end (v : variant) (n : N) (s : state) : resp * state :=
 Definition expire (s : state) : state :=
   match timers s with
   | [] => s
-  | t :: r =>
+  | (t, _) :: r =>
       if N.eqb t (sid s) then mkState (dat s) false 0 false r [] None
       else mkState (dat s) (started s) (sid s) (lease s) r (seen s) (own s)
   end.
+
+(** time passes, less than a lease: nothing fires, every running timer is now an old one *)
+Definition age (s : state) : state :=
+  mkState (dat s) (started s) (sid s) (lease s) (map (fun p => (fst p, true)) (timers s)) (seen s) (own s).
 
 Definition step (v : variant) (e : event) (s : state) : resp * state :=
   match e with
@@ -179,6 +188,7 @@ Definition step (v : variant) (e : event) (s : state) : resp * state :=
   | EJobStart n => (ROk, start_full_sync (OJob n) s)
   | EJobBatch n ents => (ROk, store ents s)
   | EJobEnd n => job_end v n s
+  | ETxn ents => (ROk, store ents s)
   | EExpire => (RNone, expire s)
   end.
 
@@ -241,6 +251,7 @@ Definition sstep (e : event) (g : spec) : resp * spec :=
   | EJobStart n => (ROk, mkSpec (Some (GJob n)) [] (g_data g))
   | EJobBatch n ents => (ROk, swrite ents g)
   | EJobEnd n => if is_gjob (g_active g) n then (ROk, scomplete g) else (RJobErr, g)
+  | ETxn ents => (ROk, swrite ents g)
   | EExpire => (RNone, if is_ghttp (g_active g) then mkSpec None [] (g_data g) else g)
   end.
 
@@ -312,7 +323,7 @@ Definition tomb (o : option (N * bool)) : option (N * bool) :=
   match o with Some (c, false) => Some (c, true) | o => o end.
 
 Definition ents_of (e : event) : list ent :=
-  match e with EHttp _ _ _ ents => ents | EJobBatch _ ents => ents | _ => [] end.
+  match e with EHttp _ _ _ ents => ents | EJobBatch _ ents => ents | ETxn ents => ents | _ => [] end.
 
 (** is [e] the end request of the sync [a] that is active when it arrives (or a request
     that starts and ends a sync in one go)? *)
@@ -333,7 +344,7 @@ Definition written_by (g : spec) (e : event) : list ent :=
   end.
 
 (** usage envelope of the pinned tree: while a job's sync runs nothing but that job's
-    batches reach the dataset (lease timers may fire at any time) *)
+    batches and transaction writes reach the dataset (lease timers may fire at any time) *)
 Fixpoint job_exclusive (cur : option N) (h : list event) : bool :=
   match h with
   | [] => true
@@ -342,10 +353,12 @@ Fixpoint job_exclusive (cur : option N) (h : list event) : bool :=
       | None, EJobStart n => job_exclusive (Some n) h'
       | None, EHttp _ _ _ _ => job_exclusive None h'
       | None, EExpire => job_exclusive None h'
+      | None, ETxn _ => job_exclusive None h'
       | None, _ => false
       | Some n, EJobBatch m _ => N.eqb m n && job_exclusive cur h'
       | Some n, EJobEnd m => N.eqb m n && job_exclusive None h'
       | Some n, EExpire => job_exclusive cur h'
+      | Some n, ETxn _ => job_exclusive cur h'
       | Some _, _ => false
       end
   end.
